@@ -55,6 +55,9 @@ def gen_hist(rng, quick, sparse):
                     st["A"] = [list(st["Phi"][i]) for i in rng.sample(range(n), m)]
                 else:
                     st["A"] = P.gen_feats(rng, m, p, offset, mag)
+            # the weights may be handed over as a VIEW of a column of the caller's kernel array
+            # (resolved when the arrays are built: needs a column with positive entries)
+            st["wview"] = (not sparse) and st["w"] is not None and rng.random() < 0.3
             steps.append(st)
             fitted, last_wkind = (n, m), wkind
             nfit += 1
@@ -82,6 +85,7 @@ def gen_hist(rng, quick, sparse):
             st = dict(op="transform", Psi=P.gen_feats(rng, k, p, offset, mag))
             if rng.random() < 0.12:
                 st["badcols"] = rng.choice([-1, 1])
+            st["inplace"] = (not sparse) and rng.random() < 0.3      # transform(K, copy=False)
             steps.append(st)
     return dict(kind="skhist" if sparse else "knhist", init=init, steps=steps, mag=mag)
 
@@ -93,6 +97,12 @@ def _arr(x):
 
 def _w(st):
     return None if st.get("w") is None else _arr(st["w"])
+
+
+def _wr(st, r):
+    """the weights the call was made with (a view of K resolves to its values at call time)"""
+    x = r["w"] if "w" in r else st.get("w")
+    return None if x is None else _arr(x)
 
 
 def step_arrays(case):
@@ -119,6 +129,11 @@ def step_arrays(case):
                 a["K"] = Phi @ Phi.T
                 if st["bad"] is None:
                     cur = Phi
+            a["w"] = _w(st)
+            if st.get("wview") and st["bad"] is None and a["w"] is not None:
+                pos = [j for j in range(a["K"].shape[1]) if np.all(a["K"][:, j] > 0)]
+                if pos:
+                    a["w"] = a["K"][:, pos[0]]          # a view into the caller's kernel array
         elif st["op"] == "transform":
             Psi = _arr(st["Psi"])
             if cur is None:
@@ -162,6 +177,7 @@ def attrs(obj, sparse):
 
 def run_impl(case):
     sparse = case["kind"] == "skhist"
+    P = _P()
     arrs = step_arrays(case)
     recs = []
     try:
@@ -170,31 +186,39 @@ def run_impl(case):
         return dict(error=type(e).__name__, error_msg=str(e))
     with np.errstate(all="ignore"):
         for st, a in zip(case["steps"], arrs):
-            r = {k: v.tolist() for k, v in a.items()}
+            r = {k: (None if v is None else v.tolist()) for k, v in a.items()}
+            if sparse and "Kmm" in a and a["Kmm"].shape[0] == a["Kmm"].shape[1]:
+                ev, U = P.sym_eigh(a["Kmm"])
+                r["U"], r["ev"] = U.tolist(), ev.tolist()
+            w = a.get("w")
             try:
+                # the caller's own arrays go in (no defensive copies) ...
                 if st["op"] == "set":
                     set_flags(obj, st, sparse)
                 elif st["op"] == "fit":
                     if sparse:
-                        obj.fit(a["Knm"].copy(), a["Kmm"].copy(), sample_weight=_w(st))
+                        obj.fit(a["Knm"], a["Kmm"], sample_weight=w)
                     else:
-                        obj.fit(a["K"].copy(), sample_weight=_w(st))
+                        obj.fit(a["K"], sample_weight=w)
                     r.update(attrs(obj, sparse))
                 elif st["op"] == "fit_transform":
                     if sparse:
-                        X = obj.fit_transform(a["Knm"].copy(), a["Kmm"].copy(), sample_weight=_w(st))
+                        X = obj.fit_transform(a["Knm"], a["Kmm"], sample_weight=w)
                     else:
-                        X = obj.fit_transform(a["K"].copy(), sample_weight=_w(st))
+                        X = obj.fit_transform(a["K"], sample_weight=w)
+                    X = np.array(X, dtype=float)
                     r.update(attrs(obj, sparse))
-                    r["X"] = np.asarray(X, dtype=float).tolist()
+                    r["X"] = X.tolist()
+                elif st.get("inplace"):
+                    r["X"] = np.array(obj.transform(a["Kt"], copy=False), dtype=float).tolist()
                 else:
-                    r["X"] = np.asarray(obj.transform(a["Kt"].copy()), dtype=float).tolist()
+                    r["X"] = np.array(obj.transform(a["Kt"]), dtype=float).tolist()
             except Exception as e:  # noqa
                 r["raised"] = type(e).__name__
                 r["raised_msg"] = str(e)[:200]
-            if sparse and "Kmm" in a and a["Kmm"].shape[0] == a["Kmm"].shape[1]:
-                ev, U = _P().sym_eigh(a["Kmm"])
-                r["U"], r["ev"] = U.tolist(), ev.tolist()
+            # ... and are overwritten in place once the call has returned
+            P.scribble(*[v for v in a.values() if v is not None and v.base is None])
+            P.scribble(*[v for v in a.values() if v is not None and v.base is not None])
             recs.append(r)
     return dict(steps=recs)
 
@@ -225,7 +249,7 @@ def gate(case, rec):
     for st, r, (cur, _) in zip(case["steps"], rec["steps"], flag_trace(case)):
         if st["op"] not in ("fit", "fit_transform") or st["bad"] is not None:
             continue
-        pc = dict(kind="sparse" if sparse else "kn", Phi=st["Phi"], w=st["w"], with_center=cur["c"],
+        pc = dict(kind="sparse" if sparse else "kn", Phi=st["Phi"], w=r.get("w", st["w"]), with_center=cur["c"],
                   with_trace=cur["t"], rcond=cur.get("rc"))
         pr = dict(r)
         if sparse:
@@ -260,9 +284,9 @@ def oracle(case, rec):
             with np.errstate(all="ignore"):
                 fresh = make_obj(case, fitf)
                 if sparse:
-                    fresh.fit(_arr(fr["Knm"]), _arr(fr["Kmm"]), sample_weight=_w(fst))
+                    fresh.fit(_arr(fr["Knm"]), _arr(fr["Kmm"]), sample_weight=_wr(fst, fr))
                 else:
-                    fresh.fit(_arr(fr["K"]), sample_weight=_w(fst))
+                    fresh.fit(_arr(fr["K"]), sample_weight=_wr(fst, fr))
                 set_flags(fresh, cur, sparse)
                 Kin = _arr(r["Kt"]) if st["op"] == "transform" else _arr(fr["Knm"] if sparse else fr["K"])
                 Y = np.asarray(fresh.transform(Kin.copy()), dtype=float)
@@ -278,12 +302,12 @@ def oracle(case, rec):
             # direct statement: (K - weighted column means of the last training block) / scale, the scale
             # from the centred Nystrom trace with pinv(Kmm, rcond) of the last fit
             rcf = P.eff_rcond(fitf.get("rc"))
-            pc = dict(kind="sparse", Phi=fst["Phi"], w=fst["w"], with_center=fitf["c"], with_trace=fitf["t"])
+            pc = dict(kind="sparse", Phi=fst["Phi"], w=fr.get("w", fst["w"]), with_center=fitf["c"], with_trace=fitf["t"])
             Pm = np.linalg.pinv(_arr(fr["Kmm"]), rcf)
             sr = P.ref_scale(pc, dict(Knm=fr["Knm"], P=Pm.tolist()))
             Knm = _arr(fr["Knm"])
             n = len(Knm)
-            wv = np.ones(n) if fst["w"] is None else _arr(fst["w"])
+            wv = np.ones(n) if fr.get("w", fst["w"]) is None else _arr(fr.get("w", fst["w"]))
             rows = (wv / wv.sum()) @ Knm if fitf["c"] else np.zeros(Knm.shape[1])
             kmx = max(float(np.max(np.abs(Knm))), float(np.max(np.abs(Kin))))
             cond = kmx * kmx * float(np.max(np.abs(Pm))) / (sr * sr) if fitf["t"] else 0.0
@@ -304,7 +328,7 @@ def oracle(case, rec):
                     return "step %d: attribute %s after re-fit differs from that of a fresh estimator" % (i, nm)
         if not sparse and fitf == cur:
             # feature-space statement for this output, from the data of the last fit only
-            pc = dict(kind="kn", kernel="linear", Phi=fst["Phi"], Psi=st.get("Psi", fst["Phi"]), w=fst["w"],
+            pc = dict(kind="kn", kernel="linear", Phi=fst["Phi"], Psi=st.get("Psi", fst["Phi"]), w=fr.get("w", fst["w"]),
                       with_center=cur["c"], with_trace=cur["t"])
             K = _arr(fr["K"])
             pr = dict(K=fr["K"], Kt=Kin.tolist(), scale=fr["scale"], TKt=r["X"])
@@ -323,8 +347,9 @@ def _b(x):
     return "true" if x else "false"
 
 
-def _wopt(st):
-    return "wNone" if st.get("w") is None else "(Some %s)" % C.fmat([[x] for x in st["w"]])
+def _wopt(st, r=None):
+    w = r["w"] if r is not None and "w" in r else st.get("w")
+    return "wNone" if w is None else "(Some %s)" % C.fmat([[x] for x in w])
 
 
 def _imp(st, r, sparse):
@@ -355,9 +380,9 @@ def case_coq(case, rec, tol, tolp, eps, diag=False):
             if sparse:
                 hint = "(%s, %s)" % (C.fmat(r["U"]), C.fmat([r["ev"]])) if "U" in r else "([], [])"
                 op = "%s %s %s %s %s" % ("fSFitTransform" if ft else "fSFit", C.fmat(r["Knm"]), C.fmat(r["Kmm"]),
-                                         hint, _wopt(st))
+                                         hint, _wopt(st, r))
             else:
-                op = "%s %s %s" % ("fOFitTransform" if ft else "fOFit", C.fmat(r["K"]), _wopt(st))
+                op = "%s %s %s" % ("fOFitTransform" if ft else "fOFit", C.fmat(r["K"]), _wopt(st, r))
         items.append("(%s, %s)" % (op, _imp(st, r, sparse)))
     ops = "[" + ";\n   ".join(items) + "]"
     i = case["init"]
